@@ -73,6 +73,7 @@ def tabu_search[T, M](
     best_solution, best_obj, best_iter = solution, obj, 0
     tabu_list, tabu_set = deque(maxlen=cooldown), set()
 
+    iteration = 0
     for iteration in range(1, max_iter + 1):
         candidates = list(neighbors(solution))
         if not candidates:
